@@ -17,7 +17,7 @@ RULE = (
     "and cast mode) x canonical values with boundary numbers, NaN/inf/subnormals, empty/full arrays, multi-byte UTF-8; "
     "each value is also spelled with out-of-range numbers, omitted default fields and relaxed positional/bare forms. "
     "pydsdl.serialize is compared byte-for-byte with R-codec, deserialize(serialize(v)) with v, the bit length with "
-    "T.bit_length_set, with and without the top-level delimiter header. Non-trivial: the type nests >=2 constructors "
+    "T.bit_length_set, with and without the top-level delimiter header; a third of the values are written right after a serialize call rejected part-way (one defect planted in a valid value). Non-trivial: the type nests >=2 constructors "
     "and the value has a non-default leaf; distinct by (universe, type index, value)."
 )
 ASSUMPTIONS = [
@@ -26,7 +26,7 @@ ASSUMPTIONS = [
     "relaxed forms use field names unique across nesting levels (the relaxed form is ambiguous otherwise)",
 ]
 MIN_MONITORS = {"wire": 12000, "roundtrip": 12000, "length-in-set": 12000, "header": 2000, "oor": 1500, "omit": 1500,
-                "relaxed": 2500, "bitio-write": 200000, "bitio-finish": 20000, "bitio-read": 100000}
+                "relaxed": 2500, "after-rejection": 4000, "bitio-write": 200000, "bitio-finish": 20000, "bitio-read": 100000}
 THOROUGH_MIN_SCALE = 8
 
 
@@ -40,6 +40,10 @@ def has_nondefault(cd, idx, cv):
     return not RC.same_value(cv, cd.default_composite(idx))
 
 
+def fixed_ok(cd, idx):
+    return GV.fixed_elements(cd, ("ref", idx)) <= 3000
+
+
 def check_value(ctx, pydsdl, cd, objs, idx, cv, vseed, case):
     T = objs[idx]
     d = cd.u[idx]
@@ -49,6 +53,18 @@ def check_value(ctx, pydsdl, cd, objs, idx, cv, vseed, case):
     back = cd.decode(idx, rep)
     if not RC.same_value(back, cv) or not cd.valid_composite(idx, cv):
         raise RuntimeError("harness bug: reference codec does not round-trip %r -> %r" % (cv, back))
+    if rng.random() < 0.35:
+        # history: the valid value below is written right after a call that was rejected part-way (possibly for another type)
+        j = rng.randrange(len(objs)) if rng.random() < 0.5 else idx
+        if j == idx or fixed_ok(cd, j):
+            bad = GV.spoil_composite(rng, cd, j, cv if j == idx else GV.gen_composite(rng, cd, j, [rng.choice([3, 10])]))
+            if bad is not None:
+                ctx.mon("after-rejection")
+                try:
+                    pydsdl.serialize(objs[j], bad[0], with_delimiter_header=(not cd.u[j]["sealed"]) and rng.random() < 0.5)
+                    ctx.cls("spoiled-value-accepted")   # e.g. a number spelled as something castable: not judged here
+                except Exception as ex:  # noqa  (which exception is raised for an invalid value is not a statement of C06)
+                    ctx.cls("rejected-" + type(ex).__name__)
     ctx.mon("wire")
     got = pydsdl.serialize(T, cv)
     if got != rep:
